@@ -54,6 +54,8 @@ enum Perturb {
   DanglingRefInRewriter,
   /// a transformation cycle that goes through a `rewrite`
   TransformCycleRewrite,
+  /// a rewriter's own `utils` section holds a utility that refers to an undefined one
+  DanglingRefInRewriterUtils,
   /// the rule's kinds would come from a local utility without kinds; a GLOBAL utility of the same id has kinds
   NoKindShadowedGlobal,
   UtilSelfHas, // different-node relation: either outcome, must not crash
@@ -96,6 +98,7 @@ const ALL: &[Perturb] = &[
   Perturb::DanglingRefInRewriter,
   Perturb::TransformCycleRewrite,
   Perturb::NoKindShadowedGlobal,
+  Perturb::DanglingRefInRewriterUtils,
 ];
 
 /// a valid document; `object_fix` selects the fix form
@@ -143,8 +146,10 @@ fn assemble(b: &Base, rng: &mut Rng, object_fix: bool, force_all: bool, simple_r
   let mut fix_vars: Vec<String> = vec![format!("${va}"), format!("${vb}")];
   let mut tr = Map::new();
   let mut prev = format!("${va}");
+  // the names either follow the dependency order (T0 <- T1 <- T2) or run against it (T9 <- T8 <- T7)
+  let descending = rng.chance(1, 2);
   for i in 0..chain {
-    let name = format!("T{i}");
+    let name = if descending { format!("T{}", 9 - i) } else { format!("T{i}") };
     let t = match rng.below(3) {
       0 => json!({"substring": {"source": prev, "startChar": rng.range(0, 1), "endChar": rng.range(2, 4)}}),
       1 => json!({"replace": {"source": prev, "replace": "[abc]", "by": "z"}}),
@@ -248,6 +253,13 @@ fn perturb(doc: &mut Value, p: Perturb, b: &Base) -> bool {
       let Some(rws) = doc.get_mut("rewriters").and_then(|r| r.as_array_mut()) else { return false };
       let Some(first) = rws.first_mut() else { return false };
       first["rule"]["not"] = json!({"matches": "ZZ"});
+      true
+    }
+    Perturb::DanglingRefInRewriterUtils => {
+      let Some(rws) = doc.get_mut("rewriters").and_then(|r| r.as_array_mut()) else { return false };
+      let Some(first) = rws.first_mut() else { return false };
+      first["utils"] = json!({"RU": {"any": [{"kind": b.kind_b}, {"matches": "ZZ"}]}});
+      first["rule"] = json!({"matches": "RU"});
       true
     }
     Perturb::TransformCycleRewrite => {
